@@ -350,7 +350,9 @@ def gen_tasks(ctx, docs, quick):
         for name, text in dl:
             faults = list(C.all_single_faults(fmt, text))
             k = max(20, budget // len(dl)) if quick else (5000 if fmt == "cif" else 20000)
-            if len(faults) > k:
+            if name.startswith("tiny"):
+                pass        # tiny documents: every single fault (they are the ones that keep cross-record checks consistent)
+            elif len(faults) > k:
                 faults = rng.sample(faults, k)
             faults.insert(0, ("valid", text))
             for d, t in faults:
